@@ -46,7 +46,7 @@ for pl in (2, 5):
         desc='parseStringValue of "ab\\u0000cd" into a pool holding one string of %d symbolic bytes: full length kept, shared iff identical, reference count exact (StringBuilder::save / StringPool)' % pl,
         bound='all values of the %d bytes of the pre-existing string' % pl))
 UNITS += [Unit('jd_num', 'wrappers/jd.cpp', defs=SM, cuts={'CUT_PARSENUMBER': r'6detail11parseNumberEPKc$'})]
-for nb in (63, 5):
+for nb in (63, 64, 5):
     OBS.append(Ob(['C01', 'C03', 'C12', 'C16'], 'pnumval_n%d' % nb, 'jd_num', 'harness/jd_num.c', 'h_pnumval', defs=['UNIT_H="jd_num.h"', 'NB=%d' % nb, 'NUMBER_RET=struct L_i8_i64_E'], unwind=70, fs='none', cap=300, hunwind=70,
         desc='parseNumericValue buffer fill with parseNumber cut: %d number characters copied verbatim + NUL, one latched look-ahead' % nb, bound='all numerals of exactly %d number characters followed by any non-number byte' % nb))
 UNITS += [Unit('jd_sobj', 'wrappers/jd.cpp', defs=CONT, cuts={'CUT_PV_ALL': r'12parseVariantINS1_14AllowAllFilterE', 'CUT_SV': r'11skipVariantE', 'CUT_ADD_ELEMENT': r'9ArrayData10addElementEPNS1_15ResourceManagerE$',
